@@ -38,9 +38,11 @@ def run(ctx, prefix=PREFIX, features=FEATURES, bounds=BOUNDS, assume=ASSUME, key
     ctx.models_used = {'kani (CBMC, cadical)': 1}
     ctx.samples = [{'harness': n, 'result': s} for n, s in sorted(r['results'].items())][:12]
     ctx.notes.append('states = harnesses verified (each an exhaustive symbolic state space); transitions = CBMC properties checked; all cover properties (reachability witnesses) satisfied: %s' % r['covers_ok'])
-    if not r['covers_ok']: ctx.inconclusive.append('a reachability witness (kani::cover) was not satisfied: vacuous harness')
+    if not r['covers_ok'] and not any(s0 != 'ok' for s0 in r['results'].values()): ctx.inconclusive.append('a reachability witness (kani::cover) was not satisfied: vacuous harness')
     if r['total'] != len(r['results']): ctx.inconclusive.append('kani verified %d harnesses, expected %d' % (r['total'], len(r['results'])))
-    failed = [n for n, s in sorted(r['results'].items()) if s != 'ok']
+    for n, s0 in sorted(r['results'].items()):
+        if s0 == 'timeout': ctx.inconclusive.append('kani harness %s hit the per-harness time cap (undecided)' % n)
+    failed = [n for n, s in sorted(r['results'].items()) if s == 'failed']
     for n in failed[3:]: ctx.notes.append('harness %s also failed (counterexample not replayed: only the first three failing harnesses are replayed)' % n)
     for n in failed[:3]:
         features = r['features_of'].get(n, features)
